@@ -167,6 +167,7 @@ func runC04(c *Check) {
 	ruleRestartReconciliation(c, p, "C04-R2")
 	ruleCacheFiles(c, p, "C04-R5")
 	rulePersistedStateLoadable(c, p, "C04-R6")
+	ruleBlockSaveAtomic(c, p, "C04-R14")
 	c.Doc("C04-R7", "error discipline: in the block package and the store, no error returned by the store, the datastore, the executor, the sequencer or the DA layer is discarded (a discarded error of a durable write lets the step continue as if it had been written).")
 	ruleNoDroppedLayerErrors(c, p, "C04-R7", []string{rootPath + "/block", storePkg})
 	ruleVerifyHookAdjacency(c, p, "C04-R8")
@@ -265,6 +266,7 @@ func runC05(c *Check) {
 	ruleMarksAfterItems(c, p, "C05-R6")
 	ruleSeenCensus(c, p, "C05-R9", steps)
 	ruleFinalisationRepeatable(c, "C05-R10")
+	ruleBlockSaveAtomic(c, p, "C05-R11")
 	ruleSinglePurposeWriters(c, p, "C05-R7")
 	ruleWritersRefuseNothing(c, p, "C05-R8")
 }
